@@ -136,6 +136,8 @@ def build(case, da):
     nps = [make_array(o, salt + 7 * k) for k, o in enumerate(ops)]
     das = [da.from_array(a, chunks=tuple(tuple(c) for c in o["chunks"])) for a, o in zip(nps, ops)]
     kind = case["kind"]
+    if kind == "self":
+        return build_self(case, da)[:2]
     if kind == "chain":
         fn = {"add": (np.add, da.add), "mul": (np.multiply, da.multiply), "sub": (np.subtract, da.subtract),
               "max": (np.maximum, da.maximum)}
@@ -161,6 +163,96 @@ def build(case, da):
         shape = np.broadcast_shapes(*[np_expand(a, ind, rank).shape for a, ind in zip(nps, inds)])
         return z, np.broadcast_to(e, shape)
     raise ValueError(kind)
+
+
+LETTERS = "abcdefgh"
+
+
+class _ES:
+    """block function for `da.blockwise(..., concatenate=True)`: an einsum over the blocks"""
+
+    def __init__(self, spec):
+        self.spec = spec
+
+    def __call__(self, *blocks):
+        return np.einsum(self.spec, *[np.asarray(b, dtype="float64") for b in blocks])
+
+
+def es_spec(inds, out):
+    return ",".join("".join(LETTERS[j] for j in ind) for ind in inds) + "->" + "".join(LETTERS[j] for j in out)
+
+
+def build_self(case, da):
+    """programs in which ONE array occurs several times under different index patterns
+    (`operands` lists the occurrences; occurrences with equal `src` are the same dask array)"""
+    salt = case.get("salt", 0)
+    srcs = {}
+    nps, das = [], []
+    for o in case["operands"]:
+        if o["src"] not in srcs:
+            a = make_array(o, salt + 7 * o["src"])
+            srcs[o["src"]] = (a, da.from_array(a, chunks=tuple(tuple(c) for c in o["chunks"])))
+        a, d = srcs[o["src"]]
+        nps.append(a)
+        das.append(d)
+    form = case["form"]
+    f8 = [a.astype("float64") for a in nps]
+    if form in ("blockwise", "einsum"):
+        inds = [tuple(o["ind"]) for o in case["operands"]]
+        out = tuple(case["out"])
+        spec = es_spec(inds, out)
+        expect = np.einsum(spec, *f8)
+        if form == "einsum":
+            return da.einsum(spec, *das), np.einsum(spec, *nps), (das, inds)
+        args = []
+        for d, ind in zip(das, inds):
+            args += [d, ind]
+        return da.blockwise(_ES(spec), out, *args, concatenate=True, dtype="float64"), expect, (das, inds)
+    if form == "matmul":
+        return das[0] @ das[1], nps[0] @ nps[1], None
+    if form == "matmul_T":
+        return das[0] @ das[1].T, nps[0] @ nps[1].T, None
+    if form == "T_matmul":
+        return das[0].T @ das[1], nps[0].T @ nps[1], None
+    if form == "tensordot":
+        return da.tensordot(das[0], das[1], axes=([1], [0])), np.tensordot(nps[0], nps[1], axes=([1], [0])), None
+    if form == "tensordot00":
+        return da.tensordot(das[0], das[1], axes=([0], [0])), np.tensordot(nps[0], nps[1], axes=([0], [0])), None
+    if form == "outer":
+        return da.outer(das[0], das[1]), np.outer(nps[0], nps[1]), None
+    raise ValueError(form)
+
+
+def check_public_unify(da, das, inds, fails):
+    """`da.unify_chunks` on the occurrences: every OCCURRENCE gets the common layout of its indices"""
+    args = []
+    for d, ind in zip(das, inds):
+        args += [d, ind]
+    chunkss, arrays = da.unify_chunks(*args)
+    for k, (d, ind, b) in enumerate(zip(das, inds, arrays)):
+        for n, j in enumerate(ind):
+            want = tuple(chunkss[j]) if d.shape[n] != 1 else (1,)
+            if tuple(b.chunks[n]) != want:
+                fails.append(("unify_chunks:common-layout",
+                              {"occurrence": k, "axis": n, "index": lab(j), "got": [list(map(int, c)) for c in b.chunks],
+                               "chunkss": {str(lab(a)): list(map(int, v)) for a, v in chunkss.items()}},
+                              "da.unify_chunks returns an occurrence that does not have the common layout of its index"))
+
+
+def check_blocks(z, fails):
+    """per-block shapes of the computed result match the advertised chunks (first and last block)"""
+    nb = z.numblocks
+    for idx in dict.fromkeys([tuple(0 for _ in nb), tuple(n - 1 for n in nb)]):
+        want = tuple(int(z.chunks[d][i]) for d, i in enumerate(idx))
+        got = tuple(np.asarray(z.blocks[idx].compute()).shape)
+        if got != want:
+            fails.append(("api:block-shape", {"block": list(idx), "got": list(got), "want": list(want)},
+                          "a computed block's shape differs from the advertised chunks"))
+
+
+def lab(j):
+    """index label -> JSON-able"""
+    return int(j) if isinstance(j, (int, np.integer)) else str(j)
 
 
 def array_pairs(node):
@@ -195,9 +287,9 @@ def check_unify_node(node, policy, limit_bytes, fails, corr, stats):
         if ind is None or tuple(ind) == () or not isinstance(a0, ArrayExpr):
             continue
         after.append(a1)
-    info = {"inds": [list(i) for _, i in pairs], "before": [[list(map(int, c)) for c in a.chunks] for a, _ in pairs],
+    info = {"inds": [[lab(j) for j in i] for _, i in pairs], "before": [[list(map(int, c)) for c in a.chunks] for a, _ in pairs],
             "after": [[list(map(int, c)) for c in a.chunks] for a in after],
-            "chunkss": {int(k): list(map(int, v)) for k, v in chunkss.items()}}
+            "chunkss": {str(lab(k)): list(map(int, v)) for k, v in chunkss.items()}}
     # (b1) one common layout per index, broadcast axes excepted
     for (a, ind), b in zip(pairs, after):
         if tuple(b.shape) != tuple(a.shape):
@@ -206,7 +298,7 @@ def check_unify_node(node, policy, limit_bytes, fails, corr, stats):
         for n, j in enumerate(ind):
             want = tuple(chunkss[j]) if a.shape[n] != 1 else (1,)
             if tuple(b.chunks[n]) != want:
-                fails.append(("unify:common-layout", dict(info, operand_axis=[n, int(j)]),
+                fails.append(("unify:common-layout", dict(info, operand_axis=[n, lab(j)]),
                               "an operand is not brought to the common layout of its index"))
             if sum(b.chunks[n]) != a.shape[n]:
                 fails.append(("unify:layout-sum", info, "target layout does not add up to the axis length"))
@@ -215,7 +307,7 @@ def check_unify_node(node, policy, limit_bytes, fails, corr, stats):
         for (a, ind), b in zip(pairs, after):
             for n, j in enumerate(ind):
                 if a.shape[n] > 1 and not bset(a.chunks[n]) <= bset(b.chunks[n]):
-                    fails.append(("unify:refine-merges", dict(info, operand_axis=[n, int(j)]),
+                    fails.append(("unify:refine-merges", dict(info, operand_axis=[n, lab(j)]),
                                   "policy refine merged blocks of an operand"))
     # (b3) limit: no operand's largest block grows beyond max(limit, its own largest block)
     if limit_bytes:
@@ -227,8 +319,9 @@ def check_unify_node(node, policy, limit_bytes, fails, corr, stats):
                 fails.append(("unify:limit-exceeded", dict(info, limit=limit_bytes, own=own, new=new),
                               "an operand's largest block exceeds max(unify-chunks-limit, its own largest block)"))
     # correspondence request: oracle = layouts in force with the limit disabled
-    labels = sorted({j for _, ind in pairs for j in ind})
-    if labels == list(range(len(labels))) and all(isinstance(j, (int, np.integer)) for j in labels):
+    labels = sorted({j for _, ind in pairs for j in ind}, key=lambda j: (str(type(j)), j))
+    num = {j: i for i, j in enumerate(labels)}  # the model numbers the labels 0..L-1
+    if True:
         with dask.config.set({"array.unify-chunks-limit": None}):
             pre, _, _ = unify_chunks_expr(*node.args, warn=False)
         stats["unify_calls"] = stats.get("unify_calls", 0) + 1
@@ -241,28 +334,42 @@ def check_unify_node(node, policy, limit_bytes, fails, corr, stats):
         toks = ["un.unify", policy, f_opt_lim(limit_bytes), f_ll([pre[j] for j in labels]), str(len(labels)),
                 f_list(a.dtype.itemsize for a, _ in pairs)]
         for a, ind in pairs:
-            toks.append(f_list(ind))
+            toks.append(f_list(num[j] for j in ind))
             toks.append(f_ll(a.chunks))
         corr.append((" ".join(toks), "ok " + f_ll([chunkss[j] for j in labels]) + " rel=1"))
 
 
-def check_lowered(low, fails):
-    """every aligned Blockwise node of the lowered tree has operands that agree per index"""
+def check_lowered(low, fails, advertised=None):
+    """every aligned Blockwise node of the lowered tree has operands (per OCCURRENCE) that agree
+    per index with each other and with the node's own output chunks; the lowered root keeps the
+    advertised chunks"""
     from dask_array._blockwise import Blockwise
 
+    if advertised is not None and tuple(tuple(int(v) for v in c) for c in low.chunks) != tuple(tuple(int(v) for v in c) for c in advertised):
+        fails.append(("lowered:advertised-chunks-differ",
+                      {"advertised": [list(map(int, c)) for c in advertised], "lowered": [list(map(int, c)) for c in low.chunks]},
+                      "the lowered expression has a different block grid than the advertised chunks"))
     for node in low.walk():
         if not isinstance(node, Blockwise) or not getattr(node, "align_arrays", False):
             continue
         seen = {}
-        for a, ind in array_pairs(node):
+        skip = set((getattr(node, "adjust_chunks", None) or {}).keys()) | set((getattr(node, "new_axes", None) or {}).keys())
+        try:
+            for pos, j in enumerate(node.out_ind):
+                if j not in skip:
+                    seen[j] = tuple(int(v) for v in node.chunks[pos])
+        except Exception:
+            seen = {}
+        for k, (a, ind) in enumerate(array_pairs(node)):
             for n, j in enumerate(ind):
                 if a.shape[n] == 1:
                     continue
                 c = tuple(int(v) for v in a.chunks[n])
                 if seen.setdefault(j, c) != c:
                     fails.append(("lowered:operands-misaligned",
-                                  {"node": type(node).__name__, "index": int(j), "layouts": [list(seen[j]), list(c)]},
-                                  "after lowering two operands of one blockwise node disagree on an index"))
+                                  {"node": type(node).__name__, "occurrence": k, "index": lab(j),
+                                   "layouts": [list(seen[j]), list(c)]},
+                                  "after lowering an operand of a blockwise node disagrees with the node's layout of an index"))
 
 
 def parse_limit(limit):
@@ -300,8 +407,11 @@ def eval_point(case):
             if tuple(z.shape) != tuple(expect.shape) or tuple(sum(c) for c in z.chunks) != tuple(expect.shape):
                 fails.append(("api:shape", {"got": list(z.shape), "want": list(expect.shape), "chunks": layout},
                               "result shape / advertised chunks differ from NumPy's broadcast shape"))
+            if case["kind"] == "self" and case["form"] == "blockwise":
+                _, _, (das_, inds_) = build_self(case, da)
+                check_public_unify(da, das_, inds_, fails)
             low = root.lower_completely()
-            check_lowered(low, fails)
+            check_lowered(low, fails, advertised=z.chunks)
             # operands of a single-level program keep their position through lowering
             if case["kind"] in ("where", "blockwise") or (case["kind"] == "chain" and len(case["operands"]) == 2):
                 if isinstance(low, Blockwise):
@@ -322,6 +432,8 @@ def eval_point(case):
                                         fails.append(("lowered:refine-merges",
                                                       {"before": list(map(int, a.chunks[n])), "after": list(map(int, b.chunks[n]))},
                                                       "policy refine: lowering merged blocks of an operand"))
+            if case["kind"] in ("self", "blockwise"):
+                check_blocks(z, fails)
             got = np.asarray(z.compute())
             if got.shape != expect.shape or not np.array_equal(got, expect):
                 fails.append(("api:values", {"got": got.tolist() if got.size <= 64 else "…", "want": expect.tolist() if expect.size <= 64 else "…"},
@@ -377,6 +489,62 @@ def gen_program(rng, maxdim):
     return case
 
 
+def interleaved(rng, n):
+    """two layouts of n whose interior boundaries do not nest (when n allows it)"""
+    for _ in range(20):
+        r, c = gen.rand_chunks(rng, n, maxparts=4), gen.rand_chunks(rng, n, maxparts=4)
+        br, bc = bset(r), bset(c)
+        if len(r) > 1 and len(c) > 1 and not br <= bc and not bc <= br:
+            return r, c
+    return r, c
+
+
+def gen_self_program(rng):
+    """one array occurring 2-3 times under different index patterns"""
+    n = rng.choice([4, 5, 6, 6, 8])
+    dt = rng.choice(["int32", "float64"])
+    r, c = interleaved(rng, n) if rng.random() < 0.85 else (gen.rand_chunks(rng, n, maxparts=4),) * 2
+    x2 = {"src": 0, "shape": [n, n], "chunks": [list(r), list(c)], "dtype": dt, "mul": rng.choice([1, 2, 3]), "add": rng.randint(0, 3)}
+    form = rng.choice(["blockwise", "blockwise", "blockwise", "einsum", "matmul", "matmul_T", "T_matmul", "tensordot", "tensordot00", "outer"])
+    if form == "outer":
+        v = dict(x2, shape=[n], chunks=[list(r)])
+        ops = [dict(v, ind=[1]), dict(v, ind=[0])]
+        return {"kind": "self", "form": form, "rank": 2, "operands": ops, "out": [1, 0]}
+    if form in ("matmul", "tensordot"):
+        return {"kind": "self", "form": form, "rank": 3, "operands": [dict(x2, ind=[0, 1]), dict(x2, ind=[1, 2])], "out": [0, 2]}
+    if form == "matmul_T":
+        return {"kind": "self", "form": form, "rank": 3, "operands": [dict(x2, ind=[0, 1]), dict(x2, ind=[2, 1])], "out": [0, 2]}
+    if form in ("T_matmul", "tensordot00"):
+        return {"kind": "self", "form": form, "rank": 3, "operands": [dict(x2, ind=[1, 0]), dict(x2, ind=[1, 2])], "out": [0, 2]}
+    # blockwise / einsum over L labels, all of length n
+    L = rng.choice([2, 3, 3, 4])
+    other = None
+    if rng.random() < 0.4:
+        rk = rng.choice([1, 2])
+        other = {"src": 1, "shape": [n] * rk, "chunks": [list(gen.rand_chunks(rng, n, maxparts=4)) for _ in range(rk)],
+                 "dtype": rng.choice(["int32", "float64"]), "mul": 1, "add": 1}
+    for _ in range(50):
+        nocc = rng.choice([2, 2, 3])
+        ops = []
+        for k in range(nocc + (1 if other else 0)):
+            srcspec = other if (other and k == nocc) else x2
+            ind = rng.sample(range(L), len(srcspec["shape"]))
+            ops.append(dict(srcspec, ind=ind))
+        used = {j for o in ops for j in o["ind"]}
+        pats = {tuple(o["ind"]) for o in ops if o["src"] == 0}
+        if used == set(range(L)) and len(pats) >= 2:
+            break
+    else:
+        ops = [dict(x2, ind=[0, 1]), dict(x2, ind=[1, 2])]
+        L = 3
+    labels = list(range(L))
+    rng.shuffle(labels)
+    out = labels[: rng.randint(1, L)] if rng.random() < 0.6 else labels
+    if form == "einsum" and len(out) == 0:
+        out = labels
+    return {"kind": "self", "form": form, "rank": L, "operands": ops, "out": out}
+
+
 def limits_for(rng, case):
     sizes = []
     for o in case["operands"]:
@@ -391,7 +559,7 @@ def limits_for(rng, case):
 
 def case_key(case, res):
     ops = case["operands"]
-    return (case["kind"], len(ops), case["rank"], case["policy"],
+    return (case["kind"], case.get("form"), len(ops), case["rank"], case["policy"],
             "none" if case["limit"] is None else ("huge" if case["limit"] == 2**40 else "set"),
             any(1 in o["shape"] for o in ops), len({len(o["shape"]) for o in ops}) > 1,
             len({o["dtype"] for o in ops}) > 1,
@@ -531,7 +699,9 @@ def run(ctx, replay=None):
     ctx.rule = (
         "helpers: every 1-3 element set of layouts of n<=N (all chunkings, (n,), broadcast (1,)), as a set and in "
         "every list order, + seeded random larger sets (nested / random / mismatched totals); programs: seeded random "
-        "(kind chain|where|blockwise, 2-4 operands, rank<=3, broadcast axes, lower-rank operands, dtypes, chunk modes) x "
+        "(kind chain|where|blockwise, 2-4 operands, rank<=3, broadcast axes, lower-rank operands, dtypes, chunk modes; kind self = "
+        "one array occurring 2-3 times under different index patterns with interleaving row/column chunkings: blockwise with "
+        "contracted indices, einsum, x@x, x@x.T, x.T@x, tensordot, outer) x "
         "3 policies x 4 limits, each point from clean registries; a case is distinct by (kind, #operands, rank, policy, "
         "limit class, broadcast?, mixed rank?, mixed dtype?, blocks per axis of the result) for programs and by "
         "(family, model output prefix, size class) for correspondence"
@@ -544,7 +714,8 @@ def run(ctx, replay=None):
     ]
     NEX = ctx.scale(5, 6)
     NR = ctx.scale(1500, 20000)
-    NPROG = ctx.scale(80, 1500)
+    NPROG = ctx.scale(58, 1150)
+    NSELF = ctx.scale(22, 350)
 
     if replay and isinstance(replay, dict) and isinstance(replay.get("case"), dict) and "operands" in replay["case"]:
         case = {k: v for k, v in replay["case"].items() if k != "detail"}
@@ -577,8 +748,8 @@ def run(ctx, replay=None):
     corr = []
     points = []
     salt = 0
-    for _ in range(NPROG):
-        prog = gen_program(rng, rng.choice([5, 9, 12]))
+    progs = [gen_program(rng, rng.choice([5, 9, 12])) for _ in range(NPROG)] + [gen_self_program(rng) for _ in range(NSELF)]
+    for prog in progs:
         for policy in POLICIES:
             for limit in limits_for(rng, prog):
                 salt += 1
@@ -592,7 +763,8 @@ def run(ctx, replay=None):
                 for k, v in res["stats"].items():
                     ctx.notes["unify." + k] = ctx.notes.get("unify." + k, 0) + int(v)
         ctx.sample({"program": prog})
-    ctx.notes["program_points"] = NPROG * 12
+    ctx.notes["program_points"] = len(progs) * 12
+    ctx.notes["self_operand_program_points"] = NSELF * 12
     ctx.correspond("unify_chunks_expr", corr)
 
     # ---------------- clean-state evaluation == fresh-interpreter evaluation (sampled)
